@@ -337,6 +337,9 @@ func (s *storeSnapshot) audit(checkSize bool) []auditProblem {
 			layers = append(layers, am.man.Config)
 		}
 		for _, l := range layers {
+			// a manifest may spell a digest sha256:<hex> or sha256-<hex> (both are accepted
+			// wherever a digest is expected)
+			l.Digest = strings.Replace(l.Digest, "sha256-", "sha256:", 1)
 			fn := strings.Replace(l.Digest, ":", "-", 1)
 			sum, ok := s.blobs[fn]
 			switch {
